@@ -58,7 +58,12 @@ def history(hid, rng):
     nrng = np.random.default_rng(rng.randrange(2 ** 32))
     L = rng.choice([3, 5, 8, 12]); T = rng.choice([1, 2, 3])
     u = np.array([[rng.choice([-3, -2, -1, 0, 0, 1, 2, 3]) for _ in range(T)] for _ in range(L)], dtype=float)
-    beta = np.array([[rng.choice([0, 5, -7, 100])for _ in range(T)]], dtype=float)
+    # q fixed effects: the breeding value carries beta[0] + (beta[1] + ... + beta[q-1]) / q (covariates averaged); the other
+    # rows are multiples of q so that this intercept bstar is an integer
+    q = rng.choice([1, 1, 2, 3])
+    beta = np.array([[rng.choice([0, 5, -7, 100]) for _ in range(T)]] +
+                    [[q * rng.choice([-2, 0, 1, 3]) for _ in range(T)] for _ in range(q - 1)], dtype=float)
+    bstar = beta[0] + (beta[1:].sum(0) / q if q > 1 else 0.0)
     model = DenseAdditiveLinearGenomicModel(beta=beta, u_misc=None, u_a=u,
                                             trait=np.array(["t%d" % t for t in range(T)], dtype=object))
     sizes = [2, 3, 4, 7, 12, 49, 98, 103, 107, 161, 250]
@@ -96,7 +101,7 @@ def history(hid, rng):
         else:
             pop = prog
             gens.append(observe(model, pop, rng.choice(["matrix", "array"])))
-    return {"id": hid, "u": u.astype(int).tolist(), "beta": beta.astype(int).ravel().tolist(), "gens": gens}
+    return {"id": hid, "u": u.astype(int).tolist(), "beta": [int(x) for x in bstar], "nfixed": q, "gens": gens}
 
 
 def run(ctx):
